@@ -33,6 +33,9 @@ type Case struct {
 	NTasks   int
 	Batches  []Batch
 	Outcomes []string // outcome of the n-th executed transition after creation: ok | taskfail | hookfail
+	// every GO_ERROR of this history is itself cancelled by a failing critical hook at before_GO_ERROR+1: the API then forces
+	// the state (only drawn for histories without concurrent callers: the forcing happens outside the serialisation)
+	GoErrorFails bool
 }
 
 var ops = map[string]pb.ControlEnvironmentRequest_Optype{
@@ -73,6 +76,9 @@ func run(c Case) (res vh.Result) {
 		fmt.Fprintf(&sb, "  - name: pb%s\n    call:\n      func: verifprobe.P(\"before:%s\")\n      trigger: before_%s\n      timeout: 5s\n      critical: %v\n", strings.ToLower(e), e, e, crit)
 		fmt.Fprintf(&sb, "  - name: pa%s\n    call:\n      func: verifprobe.P(\"after:%s\")\n      trigger: after_%s\n      timeout: 5s\n      critical: false\n", strings.ToLower(e), e, e)
 	}
+	if c.GoErrorFails {
+		fmt.Fprintf(&sb, "  - name: pge\n    call:\n      func: verifprobe.P(\"fail:GO_ERROR\")\n      trigger: before_GO_ERROR+1\n      timeout: 5s\n      critical: true\n")
+	}
 	for _, s := range []string{"STANDBY", "DEPLOYED", "CONFIGURED", "RUNNING", "ERROR"} {
 		fmt.Fprintf(&sb, "  - name: pl%s\n    call:\n      func: verifprobe.P(\"leave:%s\")\n      trigger: leave_%s\n      timeout: 5s\n      critical: false\n", strings.ToLower(s), s, s)
 	}
@@ -91,6 +97,9 @@ func run(c Case) (res vh.Result) {
 		return "ok"
 	}
 	w.OnProbe = func(p simworld.ProbeRec) simworld.ProbeReply {
+		if strings.HasPrefix(p.Role, wf+".") && p.Arg == "fail:GO_ERROR" {
+			return simworld.ProbeReply{Fail: "simulated critical hook failure at before_GO_ERROR"}
+		}
 		if !strings.HasPrefix(p.Role, wf+".") || !strings.HasPrefix(p.Arg, "before:") {
 			return simworld.ProbeReply{}
 		}
@@ -236,6 +245,12 @@ func run(c Case) (res vh.Result) {
 	// model walk: each bracket starts from the state left by the previous one
 	state := "STANDBY"
 	k := -1
+	goErrorFailed := false
+	defer func() {
+		if goErrorFailed {
+			res.Classes = append(res.Classes, "go-error-failed-state-forced")
+		}
+	}()
 	probes := w.Probes()
 	calls := w.Master.Calls()
 	afterCreate := 0
@@ -274,6 +289,10 @@ func run(c Case) (res vh.Result) {
 			continue
 		}
 		want := "ok"
+		if b.Event == "GO_ERROR" && c.GoErrorFails {
+			want = "error"
+			goErrorFailed = true
+		}
 		if i >= 2 && b.Event != "GO_ERROR" { // brackets 0,1 are the DEPLOY and CONFIGURE of the creation
 			k++
 			afterCreate++
@@ -295,6 +314,9 @@ func run(c Case) (res vh.Result) {
 			state = dst
 		} else if b.EndState != state {
 			return fail("failed-transition-moved", "failed transition %s left state %s -> %s", b.Event, state, b.EndState)
+		}
+		if b.Event == "GO_ERROR" && want == "error" {
+			state = "ERROR" // the API forces ERROR when the GO_ERROR it attempts after a failure does not complete
 		}
 	}
 	// final state
@@ -395,6 +417,15 @@ func gen(t *rapid.T) Case {
 		c.Batches = append(c.Batches, b)
 	}
 	c.Outcomes = rapid.SliceOfN(rapid.SampledFrom([]string{"ok", "ok", "ok", "ok", "taskfail", "hookfail"}), 0, 8).Draw(t, "outcomes")
+	serial := true
+	for _, b := range c.Batches {
+		if len(b.Reqs) > 1 {
+			serial = false
+		}
+	}
+	if serial && rapid.IntRange(0, 2).Draw(t, "goErrorFails") == 0 {
+		c.GoErrorFails = true
+	}
 	return c
 }
 
@@ -414,6 +445,9 @@ func TestFixed(t *testing.T) {
 	vh.Fixed(t, prop, "two-destroys-race", Case{NTasks: 1, Batches: []Batch{{[]Req{ctl("RESET")}}, {[]Req{ctl("CONFIGURE"), {Kind: "destroy"}, {Kind: "destroy"}}}}}, vh.Confirmed(run))
 	// found at VERIF_SEED=2: two control requests wait behind a destroy; once it is DONE their failure path forced DONE -> ERROR
 	vh.Fixed(t, prop, "controls-queued-behind-destroy", Case{NTasks: 3, Batches: []Batch{{[]Req{{Kind: "destroy"}, ctl("STOP_ACTIVITY"), ctl("CONFIGURE")}}, {[]Req{ctl("START_ACTIVITY"), ctl("GO_ERROR")}}}}, vh.Confirmed(run))
+	vh.Fixed(t, prop, "failed-start-and-failed-go-error", Case{NTasks: 2, GoErrorFails: true, Batches: []Batch{{[]Req{ctl("START_ACTIVITY")}}, {[]Req{ctl("STOP_ACTIVITY")}}}, Outcomes: []string{"taskfail"}}, vh.Confirmed(run))
+	vh.Fixed(t, prop, "illegal-request-and-failed-go-error", Case{NTasks: 1, GoErrorFails: true, Batches: []Batch{{[]Req{ctl("STOP_ACTIVITY")}}, {[]Req{ctl("START_ACTIVITY")}}}}, vh.Confirmed(run))
+	vh.Fixed(t, prop, "requested-go-error-fails", Case{NTasks: 1, GoErrorFails: true, Batches: []Batch{{[]Req{ctl("START_ACTIVITY")}}, {[]Req{ctl("GO_ERROR")}}, {[]Req{ctl("RESET")}}}}, vh.Confirmed(run))
 	vh.Fixed(t, prop, "failed-start", Case{NTasks: 2, Batches: []Batch{{[]Req{ctl("START_ACTIVITY")}}, {[]Req{ctl("STOP_ACTIVITY")}}}, Outcomes: []string{"taskfail"}}, vh.Confirmed(run))
 	vh.Fixed(t, prop, "hook-fails-then-requests", Case{NTasks: 1, Batches: []Batch{{[]Req{ctl("START_ACTIVITY")}}, {[]Req{ctl("START_ACTIVITY")}}, {[]Req{ctl("GO_ERROR")}}}, Outcomes: []string{"hookfail"}}, vh.Confirmed(run))
 }
